@@ -3603,7 +3603,13 @@ func (c *Call) String() string {
 	}
 
 	// Write function name and args.
-	return fmt.Sprintf("%s(%s)", c.Name, strings.Join(str, ", "))
+	// Quote the function name when it cannot be written bare in call position.
+	// DISTINCT is the one keyword the parser accepts bare before a parenthesis.
+	name := c.Name
+	if name != "distinct" {
+		name = QuoteIdent(name)
+	}
+	return fmt.Sprintf("%s(%s)", name, strings.Join(str, ", "))
 }
 
 // Distinct represents a DISTINCT expression.
